@@ -268,8 +268,10 @@ func newServer(cache string) *server {
 	h := handler.New(es)
 	h.AddTransport(transport.Websocket{})
 	h.AddTransport(transport.Options{})
-	h.AddTransport(transport.GET{})
-	h.AddTransport(transport.POST{})
+	// configured response headers (without a Content-Type), a fresh map per transport and server:
+	// nothing of one request may end up in the configuration that later requests are served with
+	h.AddTransport(transport.GET{ResponseHeaders: map[string][]string{"X-Verif-Srv": {"get"}}})
+	h.AddTransport(transport.POST{ResponseHeaders: map[string][]string{"X-Verif-Srv": {"post"}, "Cache-Control": {"no-store"}}})
 	h.AddTransport(transport.UrlEncodedForm{})
 	h.AddTransport(transport.GRAPHQL{})
 	h.AddTransport(transport.MultipartForm{})
